@@ -198,6 +198,8 @@ def run_ops(ctx, case, rec):
                 if kind == "dsge" and not lazy:
                     try:
                         rep.genotype_to_phenotype(g)  # extension happens here, before the first snapshot
+                    except core.CaseTimeout:
+                        raise  # the watchdog cut the mapping short: the case is not judged (a half-extended genotype)
                     except BaseException:  # noqa
                         pass
                 if id(g) not in born or not lazy:
@@ -343,6 +345,8 @@ def run_steps(ctx, case, rec):
             if kind == "dsge":
                 try:
                     o.get_phenotype()
+                except core.CaseTimeout:
+                    raise
                 except BaseException:  # noqa
                     pass
             if id(o) not in born:
